@@ -7,7 +7,8 @@ reload every affected asset once, in order" is re-checked at every call site, no
 Symbolic: the mode before the call (Local / Static), the number n <= N of affected assets, the outcome of each reload.
 Environment (stated): the graph and set operations and `DepsGraph::reload` as in the `run_update` kernel,
 `BorrowedCache::new` (records which map and reloader it was given), `Events::for_each` (an `events` event; the
-closure that filters and inserts the notified entries is not executed), logging disabled.
+closure that filters and inserts the notified entries is executed from its MIR on each of e <= 2 notified entries, with
+`DepsGraph::contains` answering a symbolic hit_i and `HashSet::insert` recorded), logging disabled.
 Property per control path:
   update_if_local   Local  -> exactly one full update pass on the lent (map, reloader), mode stays Local
                     Static -> nothing happens, mode stays Static
@@ -15,7 +16,8 @@ Property per control path:
   use_static_ref    Local  -> mode becomes Static(given map, given reloader) and exactly one full update pass on them
                               (what was notified before the switch is applied AND consumed: the pending set is cleared)
                     Static -> nothing happens
-  handle_events     the events are taken in first, then exactly `update_if_static`'s behaviour
+  handle_events     the whole batch is taken in first (each entry asked for once, inserted iff recorded by somebody), then
+                    exactly `update_if_static`'s behaviour: at most one pass per batch, never a pass inside the batch
 A "full update pass" = SORT, CLEAR, RELOAD(0) .. RELOAD(n-1), each exactly once, in this order.
 """
 import re
@@ -27,6 +29,13 @@ from seqfold import SymEnum, conj
 from reloadk import Obj
 from runupdk import RunUpdExec
 
+E_MAX = 2
+
+
+class EventItem:
+    def __init__(self, i): self.i = i
+
+
 IMPL = r"paths::<impl at src/hot_reloading/paths\.rs:[\d: ]+>::"
 ENTRIES = ("update_if_local", "update_if_static", "use_static_ref", "handle_events")
 
@@ -35,6 +44,8 @@ class ModeExec(RunUpdExec):
     def __init__(self, fns, N):
         super().__init__(fns, N)
         self.domain["mode"] = {0, 1}
+        for i in range(E_MAX):
+            self.domain[f"hit{i}"] = {0, 1}
 
     def rvalue(self, rv, frame, mem):
         rv = rv.strip()
@@ -68,9 +79,49 @@ class ModeExec(RunUpdExec):
             return
         if c.startswith("Events::for_each::<"):
             path.events.append(Event("events"))
-            yield mem, path, Konst("unit")
+            if "hclosure" not in self.fns:
+                yield mem, path, Konst("unit")
+                return
+            env = ("env", self.fresh("h"))
+            mem[env] = self.val(args[1], mem)
+            yield from self.each_event(0, env, mem, path, depth)
+            return
+        if c == "DepsGraph::contains":
+            it = self.val(args[1], mem)
+            if not isinstance(it, EventItem):
+                raise Unsupported("DepsGraph::contains on something else than a notified entry")
+            path.events.append(Event("asked", it.i))
+            yield mem, path, M.BoolV(f"(= hit{it.i} (_ bv1 64))")
+            return
+        if c.endswith("::insert") and "HashSet" in c:
+            it = self.val(args[1], mem)
+            if not isinstance(it, EventItem):
+                raise Unsupported("insertion of something else than a notified entry into the pending set")
+            path.events.append(Event("insert", it.i))
+            yield mem, path, M.BoolV("true")
             return
         yield from super().call(callee, args, mem, path, depth)
+
+    def each_event(self, i, env, mem, path, depth):
+        """`Events::for_each`: the closure (from its MIR) on each of e <= E notified entries, in order"""
+        import copy
+        if i < E_MAX:
+            m2, p2 = copy.deepcopy(mem), copy.deepcopy(path)
+            p2.conds.append(f"(bvugt e (_ bv{i} 64))")
+            for m3, p3, _ in self.run("hclosure", [Ref(env), EventItem(i)], m2, p2, depth + 1):
+                yield from self.each_event(i + 1, env, m3, p3, depth)
+        path.conds.append(f"(= e (_ bv{i} 64))")
+        yield mem, path, Konst("unit")
+
+    def load(self, ref, mem):
+        try:
+            return super().load(ref, mem)
+        except KeyError:
+            # the MIR pretty-printer names only the first of several disjoint captures of `self`
+            v = mem.get(ref.base)
+            if isinstance(v, Struct) and v.tag == "closure":
+                return Obj("capture")
+            raise
 
     def resolve(self, callee):
         c = callee.strip()
@@ -90,6 +141,8 @@ def mode_queries(fns_list, N, log, native, result):
         m = re.fullmatch(r"run_update::\{closure#\d+\}", f.name)
         if m:
             fns["closure:" + f.name] = f
+        if re.fullmatch(IMPL + r"handle_events::\{closure#0\}", f.name):
+            fns["hclosure"] = f
         m = re.fullmatch(IMPL + r"(\w+)", f.name)
         if m and m.group(1) in ENTRIES:
             if m.group(1) in fns:
@@ -100,6 +153,9 @@ def mode_queries(fns_list, N, log, native, result):
         raise Unsupported("not found in the MIR dump: " + ", ".join(missing))
     pre = ["(set-logic ALL)", "(declare-const n (_ BitVec 64))", f"(assert (bvule n (_ bv{N} 64)))",
            "(declare-const mode (_ BitVec 64))", "(assert (or (= mode (_ bv0 64)) (= mode (_ bv1 64))))"]
+    pre += ["(declare-const e (_ BitVec 64))", f"(assert (bvule e (_ bv{E_MAX} 64)))"]
+    for i in range(E_MAX):
+        pre += [f"(declare-const hit{i} (_ BitVec 64))", f"(assert (or (= hit{i} (_ bv0 64)) (= hit{i} (_ bv1 64))))"]
     for i in range(N):
         pre += [f"(declare-const ok{i} (_ BitVec 64))", f"(assert (or (= ok{i} (_ bv0 64)) (= ok{i} (_ bv1 64))))"]
     res = []
@@ -118,11 +174,26 @@ def mode_queries(fns_list, N, log, native, result):
         props = []
         for mem, p in runs:
             ev = [(e.kind, e.obj) for e in p.events if e.kind in ("sort", "clear", "reload", "cache", "events")]
+            hits = "true"
             if entry == "handle_events":
                 if ev[:1] != [("events", None)] or [k for k, _ in ev].count("events") != 1:
                     props.append(("false", "events-first"))
                     continue
                 ev = ev[1:]
+                # the whole batch is taken in first: every notified entry is asked for once, in order, and put into the
+                # pending set iff somebody recorded it; only then may a pass run (at most once per batch)
+                intake = [(e.kind, e.obj) for e in p.events if e.kind in ("asked", "insert", "sort")]
+                first_sort = next((k for k, x in enumerate(intake) if x[0] == "sort"), len(intake))
+                if any(x[0] != "sort" for x in intake[first_sort:]):
+                    props.append(("false", "pass-inside-the-batch"))
+                    continue
+                asked = [o for (k, o) in intake if k == "asked"]
+                ins = [o for (k, o) in intake if k == "insert"]
+                if asked != list(range(len(asked))) or len(set(ins)) != len(ins):
+                    props.append(("false", "intake"))
+                    continue
+                hits = "(and (= e (_ bv%d 64)) %s)" % (len(asked), " ".join(
+                    (f"(= hit{i} (_ bv1 64))" if i in ins else f"(= hit{i} (_ bv0 64))") for i in asked) or "true")
             fin = mem[me].fields[2]
             if not isinstance(fin, SymEnum):
                 raise Unsupported("mode field is not an enum value after " + entry)
@@ -141,9 +212,9 @@ def mode_queries(fns_list, N, log, native, result):
                 mode_after_run = f"(= {fin.disc} mode)"
             mode_after_idle = f"(= {fin.disc} mode)" if (fin.disc != bv(1).t or fin_names == ("static_map", "static_reloader")) else "false"
             if full:
-                props.append((f"(and (= mode (_ bv{runs_when} 64)) (= n (_ bv{len(rel)} 64)) {mode_after_run})", f"pass{len(rel)}"))
+                props.append((f"(and (= mode (_ bv{runs_when} 64)) (= n (_ bv{len(rel)} 64)) {mode_after_run} {hits})", f"pass{len(rel)}"))
             elif not ev:
-                props.append((f"(and (= mode (_ bv{1 - runs_when} 64)) {mode_after_idle})", "idle"))
+                props.append((f"(and (= mode (_ bv{1 - runs_when} 64)) {mode_after_idle} {hits})", "idle"))
             else:
                 props.append(("false", "shape"))
         bounds = (f"{entry} with run_update inlined, from MIR; mode before the call symbolic, n <= {N} affected assets, every outcome "
